@@ -13,6 +13,7 @@ import XmppModel.Lemmas.IbbCarrier
 import XmppModel.Model.IbbWriteSide
 import XmppModel.Model.IbbFlow
 import XmppModel.Model.IbbWrap
+import XmppModel.Model.IbbCloseProbe
 import XmppModel.Lemmas.IbbFlow
 import XmppModel.Lemmas.IbbWriteSide
 import XmppModel.Generated.C15
@@ -431,6 +432,25 @@ theorem C15_send_wrap_probe : Generated.C15.sendWrapProbe = some sendWrapModel :
 /-- both counters wrap at 65536, the modulus of `recv` / `seqsFrom` (derived from the two probes) -/
 theorem C15_seq_modulus_fact :
     Generated.C15.recvSeqModulus = some 65536 ∧ Generated.C15.sendSeqModulus = some 65536 := by decide
+
+/-- PROBE FACT (round E): what a close looks like from outside on the REAL code — `Close` with a
+fault at each of its steps (flush refused, connection broken, error reply, no reply before the
+deadline; with and without a `Read` pending) and a close request of the peer (nothing buffered,
+unflushed bytes, the flush refused): what is returned / answered, what `Read` then does, how a late
+data packet is answered — is exactly what the model's close programs predict.  This ties
+`IbbClose.closeProgram` / `closeNoNotifyProgram` to behaviour at every fault position, independently
+of the shape of the source. -/
+theorem C15_close_probe :
+    Generated.C15.closeProbe = some (closeTable.map fun r => (r.1, r.2.map fun o => (o.1, o.2.1, o.2.2))) := by decide
+
+/-- directly on the probed table, no model in between: whatever step fails or none, and whoever
+closes, a `Read` issued (or pending) afterwards returns end-of-file and a late data packet is
+answered item-not-found (or cannot be answered at all because the connection is broken) -/
+theorem C15_close_probe_always_ends_read :
+    (Generated.C15.closeProbe.map fun rows => rows.length == 8 && rows.all fun r =>
+      match r.2 with
+      | some (_, rd, d) => rd == "EOF" && (d == "inf" || d == "skip")
+      | none => false) = some true := by decide
 
 /-- negation witness: taking the receiving side down only after the peer acknowledged the close
 request leaves it up whenever an earlier step fails -/
